@@ -120,17 +120,18 @@ def valid_inventory(ck, prog, config, clause):
                 return False
             return True
         patterns = [
-            ('len0', lambda op, lp, rp: op == '==' and lp.endswith('->length') and rp == '#0'),
+            # nothing is stored for the entry (an empty dictionary): there is nothing to hash - and nothing to skip
+            ('stored0', lambda op, lp, rp: op == '==' and lp.endswith('->comp_length') and rp == '#0'),
             ('lookup-hit', lambda op, lp, rp: op == '!=' and rp == '#0' and lp == 'f'),
             ('len-equal', lambda op, lp, rp: op == '==' and lp.endswith('->length') and
              rp.endswith('->length') and lp != rp and set([lp.split('->')[0], rp.split('->')[0]]) == set(['f', 'tgt_idx'])),
         ]
         req_by_fn = {
-            'validate_checksums': ['len0'],                  # the empty dictionary entry has nothing to hash
+            'validate_checksums': ['stored0'],               # the empty dictionary entry has nothing to hash
             'zck_find_matching_chunks': ['lookup-hit', 'len-equal'],   # match marking (C08-c)
         }
         req = req_by_fn.get(fn.name)
-        rule = ValidRule(prog, fn, patterns, assign_req=[], vocab=('length', 'valid', 'f'))
+        rule = ValidRule(prog, fn, patterns, assign_req=[], vocab=('length', 'comp_length', 'valid', 'f'))
         rule.viol_sites = []
 
         def on_assign(ctx, lhs, rhs, op, value, ts, rule=rule, fn=fn, req=req):
